@@ -193,3 +193,48 @@ theorem run_terminates (s : Nat) (e : Option Nat) (M : List (MT σ)) (items : Li
   run_total (M.length - s) items.length s e M items (Nat.le_refl _) (Nat.le_refl _) hnr hneu hok
 
 end Genshi.Match
+
+namespace Genshi.Match
+open Genshi
+variable {σ : Type}
+
+/-- leading registrations just extend the template list -/
+theorem run_regs : ∀ (regs : List (MT σ)) (f s : Nat) (e : Option Nat) (rest : List (Item σ)) (M : List (MT σ)),
+    run (f + regs.length) s e (regs.map Item.reg ++ rest) M = run f s e rest (M ++ regs) ∨ f = 0 := by
+  intro regs
+  induction regs with
+  | nil => intro f s e rest M; left; simp
+  | cons t ts ih =>
+    intro f s e rest M
+    cases f with
+    | zero => right; rfl
+    | succ f =>
+      left
+      simp only [List.map_cons, List.cons_append, List.length_cons]
+      rw [show f + 1 + (ts.length + 1) = (f + 1 + ts.length) + 1 by omega]
+      simp only [run]
+      rcases ih (f + 1) s e rest (M ++ [t]) with h | h
+      · rw [h]; simp
+      · omega
+
+/-- **A whole render** of a template whose `py:match` declarations are the first children of the root:
+    the root START passes untested (no template is registered yet), the declarations register, the
+    content is filtered with the registered list, and the root END passes (the matchers are told). -/
+theorem render_declarations_first (f : Nat) (tg : QName) (at_ : AttrList) (regs : List (MT σ)) (content : List (Item σ))
+    (hnr : NoReg content) (hcl : Closed (evs content)) (M' : List (MT σ)) (out : List Event)
+    (h : run f 0 none content regs = some (M', out)) :
+    render (f + regs.length + 3) (.ev (.start tg at_) :: (regs.map Item.reg ++ (content ++ [.ev (.end_ tg)]))) =
+      some (.start tg at_ :: (out ++ [.end_ tg])) := by
+  have hf := run_fuel_pos h
+  obtain ⟨f0, rfl⟩ : ∃ f0, f = f0 + 1 := ⟨f - 1, by omega⟩
+  have hend : run 2 0 none [Item.ev (Event.end_ tg)] M' = some (scanEnd (Event.end_ tg) 0 none 0 M', [Event.end_ tg]) := by
+    simp [run, isStart, isEnd, emit]
+  have hj := run_append_join (f0 + 1) 2 0 none content [.ev (Event.end_ tg)] 0 regs _ _ hcl h hend
+  unfold render
+  rw [show f0 + 1 + regs.length + 3 = (f0 + 1 + 2 + regs.length) + 1 by omega]
+  simp only [run, isStart, ↓reduceIte, scan]
+  rcases run_regs regs (f0 + 1 + 2) 0 none (content ++ [.ev (Event.end_ tg)]) [] with h1 | h1
+  · rw [h1, List.nil_append, hj]; simp [emit]
+  · omega
+
+end Genshi.Match
